@@ -1,6 +1,7 @@
 package gobinlog_test
 
 import (
+	"encoding/binary"
 	"math/rand"
 )
 
@@ -448,6 +449,24 @@ func invalidPacketKinds(r *rand.Rand) [][]byte {
 	return append(out, g)
 }
 
+// invalidPacketsOfEveryType: the gate applies to every event before anything else looks at it, whatever type the packet
+// claims to have: for every type code the parser or the connection layer knows (and a few nobody knows), an event of that
+// type cut short by one byte, the same event with bytes appended, and garbage that carries the code in its type byte.
+func invalidPacketsOfEveryType(r *rand.Rand) [][]byte {
+	var out [][]byte
+	for _, typ := range []byte{0, 1, 2, 3, 4, 5, 13, 14, 15, 16, 19, 23, 24, 25, 26, 27, 29, 30, 31, 32, 33, 34, 35, 36, 38, 39, 40, 160, 161, 162, 163, 164, 200, 255} {
+		ev := mkEvent(1600000000, typ, 1, 700, 0, randBytes(r, 1+r.Intn(30)), false)
+		out = append(out, append([]byte(nil), ev[:len(ev)-1]...), append(append([]byte{}, ev...), randBytes(r, 1+r.Intn(5))...))
+		g := randBytes(r, 5+r.Intn(30))
+		g[4] = typ
+		if len(g) >= 19 && int(binary.LittleEndian.Uint32(g[9:13])) == len(g) {
+			g[9] ^= 0x40
+		}
+		out = append(out, g)
+	}
+	return out
+}
+
 // invalidPacket builds a packet the validity gate must reject: truncated, over-long, or garbage.
 func invalidPacket(r *rand.Rand) []byte {
 	ev := mkEvent(1600000000, tXid, 1, 500, 0, le64(99), false)
@@ -648,6 +667,9 @@ func modeC17Stream(e *Env) {
 					for n := 0; n <= 18; n++ {
 						raws = append(raws, append([]byte(nil), xid[:n]...))
 					}
+				}
+				if i == 2 && (li == 0 || e.Thorough()) {
+					raws = append(raws, invalidPacketsOfEveryType(e.R)...)
 				}
 			} else {
 				for rep := 0; rep < e.N(2, 6); rep++ {
